@@ -15,7 +15,16 @@ package main
 //	for _, x := range L { B }    match L'.findSome? (fun x => B') with | some r => r | none => rest'
 //	                             (in B: return e ↦ some e', continue / end of body ↦ none)
 //	for i := 0; i < N; i++ {B}   the same over List.range N'   (xs[i] ↦ xs.getD i default)
+//	for … { B } with loop-carried variables (assigned in B, visible after it) and/or break:
+//	                             match Trans.forRange L' (v…) (fun (v…) x => B') with | .inl r => r | .inr (v…) => rest'
+//	                             (in B: return e ↦ .ret e', break ↦ .brk (v…), continue / end ↦ .next (v…))
 //	panic(…)                     none   (the result type becomes Option R, return e ↦ some e')
+//	func f(…) (T, error)         Option T: return v, nil ↦ some v'; return _, <fresh error> ↦ none;
+//	                             return v, err ↦ if err then none else some v'
+//	v, err := g(x) (whitelisted) let v := (g' x').getD default; let err := (g' x').isNone   (err != nil ↦ err)
+//	v, ok := m[k]                let v := (lookupT m' k').getD default; let ok := (lookupT m' k').isSome
+//	p.F = e (p a struct VALUE)   let p := { p with f := e' };  T{F: e}  ↦  ({ f := e' } : T');  *q, q.F on a nil-able
+//	                             pointer ↦ (q.getD default)… (a nil dereference panics in Go; it is not modelled)
 //
 // Assignment is shadowing `let` (no renaming needed: a join point `k` is only introduced where the
 // branches assign nothing that is visible afterwards, otherwise the function is rejected).
